@@ -32,6 +32,7 @@ listener_op = st.one_of(
     st.tuples(st.integers(0, 5), st.integers(0, 6)).map(lambda t: ['readd_listener', t[0], t[1]]),
     st.tuples(st.integers(0, 5), st.sampled_from(['first', 'second']), st.sampled_from(['remove', 'add']),
               st.integers(0, 5)).map(lambda t: ['arm', t[0], t[1], t[2], t[3]]),
+    st.tuples(st.integers(0, 1), st.sampled_from([500, 3000, 8000])).map(lambda t: ['lookup', t[0], t[1]]),
 )
 
 
@@ -59,7 +60,7 @@ def check(case: Dict[str, Any]) -> Dict[str, Any]:
         raise mine[0]
     s = run.stats
     classes = [k for k in ('refresh', 'new', 'goodbye_cached', 'flush_marked', 'repeat_in_dgram', 'multi_kind_dgram',
-                           'boundary_flush', 'listener_mutation', 'listener_readded', 'exact_1000', 'flush_over_expired') if s.get(k)]
+                           'boundary_flush', 'listener_mutation', 'listener_readded', 'exact_1000', 'flush_over_expired', 'lookup_pending') if s.get(k)]
     if case['listeners'] > 1:
         classes.append('multi-listener')
     return {'nontrivial': bool(s['multi_kind_dgram'] or s['boundary_flush']), 'classes': classes,
